@@ -354,7 +354,13 @@ func Prelude() string {
 (declare-fun atoi_ok (Str) Bool)
 (assert (forall ((n Int)) (! (and (atoi_ok (itoa n)) (= (atoi (itoa n)) n)) :pattern ((itoa n)))))
 (define-fun trunc ((x Real)) Int (ite (>= x 0.0) (to_int x) (- (to_int (- x)))))
-(declare-fun rnd (Real) Int)
+`
+}
+
+// PreludeRnd: the nearest-integer function of "%.0f"; only emitted for functions that mention it (real
+// arithmetic in the header slows the solvers down on pure integer/heap goals).
+func PreludeRnd() string {
+	return `(declare-fun rnd (Real) Int)
 (assert (forall ((x Real)) (! (and (<= (- x 0.5) (to_real (rnd x))) (<= (to_real (rnd x)) (+ x 0.5))) :pattern ((rnd x)))))
 (assert (forall ((n Int)) (! (= (rnd (to_real n)) n) :pattern ((rnd (to_real n))))))
 `
